@@ -284,6 +284,9 @@ pub fn check(c: &Case, stats: &mut Stats) -> CheckResult {
     if c.defaults {
         stats.label("build_with_defaults");
     }
+    if c.terms.is_empty() && (c.ann.iter().any(|a| a.term.is_some()) || !c.parents.is_empty()) {
+        stats.label("failing-calls-without-any-term");
+    }
     if c.ann.iter().any(|a| a.name.len() > 255) {
         stats.label("record-name-longer-than-255-bytes");
     }
@@ -306,7 +309,7 @@ fn strategy(tier: Tier) -> BoxedStrategy<Case> {
     let max = if tier == Tier::Quick { 12 } else { 30 };
     (
         // (names of any length: one in six comes from the pool of long / multi-byte / control-character names)
-        vec((any::<u32>(), prop_oneof![5 => name_strategy(NameMode::Plain), 1 => name_strategy(NameMode::Rich)]), 1..=max),
+        vec((any::<u32>(), prop_oneof![5 => name_strategy(NameMode::Plain), 1 => name_strategy(NameMode::Rich)]), 0..=max),
         0u8..4,
         vec((any::<u16>(), any::<u16>(), 0u8..10, any::<u32>()), 0..30),
         vec((0u8..3, 0u8..6, any::<u16>(), 0u8..10, any::<u32>()), 0..30),
@@ -349,6 +352,9 @@ fn strategy(tier: Tier) -> BoxedStrategy<Case> {
                 terms.push((*id, name));
             }
             for d in dups {
+                if terms.is_empty() {
+                    break;
+                }
                 let t = terms[pick(d, terms.len())].clone();
                 terms.push((t.0, format!("{}-again", t.1)));
             }
@@ -388,6 +394,11 @@ fn strategy(tier: Tier) -> BoxedStrategy<Case> {
             let n = ids.len();
             let mut parents = Vec::new();
             for (a, b, fail_sel, r) in raw_parents {
+                if n == 0 {
+                    // a history without any new_term call: every id is absent
+                    parents.push((absent(r), absent(r.wrapping_mul(31))));
+                    continue;
+                }
                 let (x, y) = (pick(a, n), pick(b, n));
                 let (pi, ci) = (x.min(y), x.max(y));
                 match fail_sel {
@@ -407,7 +418,7 @@ fn strategy(tier: Tier) -> BoxedStrategy<Case> {
                 let rec_id = [1u32, 2, 3, 7, u32::MAX, 0][rec as usize];
                 let name = rec_names[rec as usize].clone();
                 match fail_sel {
-                    0..=5 => ann.push(AnnOp { kind, rec: rec_id, name, term: Some(ids[pick(tp, n)]) }),
+                    0..=5 if n > 0 => ann.push(AnnOp { kind, rec: rec_id, name, term: Some(ids[pick(tp, n)]) }),
                     6 => ann.push(AnnOp { kind, rec: rec_id, name, term: None }),
                     // failing call; it carries a different name: a rejected call must not define the record
                     _ => ann.push(AnnOp { kind, rec: rec_id, name: format!("{name} (rejected call)"), term: Some(absent(r)) }),
@@ -416,7 +427,7 @@ fn strategy(tier: Tier) -> BoxedStrategy<Case> {
             // one name per record among the successful calls (first wins anyway)
             // one history in eight closes its add_parent calls with add_parent(x, x), mostly for a present x
             let self_parent = match dup_sel % 16 {
-                0 => Some(ids[pick(dup_sel, n)]),
+                0 if n > 0 => Some(ids[pick(dup_sel, n)]),
                 1 => Some(absent(u32::from(dup_sel))),
                 _ => None,
             };
@@ -496,7 +507,7 @@ impl Property for C15 {
         "C15"
     }
     fn rule(&self) -> String {
-        "Generated call histories in the order the Builder typestates allow: new_term* (duplicates, ids dense / sparse / borders / a run of consecutive ids with one or two holes) -> add_parent* over present and absent ids (present pairs keep the graph acyclic; absent ids are neighbours, holes inside the range of the present ids, far values, the borders 0 / 1 / 9_999_999, values >= 10^7 and near u32::MAX, and aliases of present ids under power-of-two masks / decimal moduli such as id + k*2^24; one history in eight closes with add_parent(x, x) or with the reverse of an accepted link or chain of two links: such a cycle-closing call is accepted on the unchanged tree, where the history then ends, and must be without effect if it is rejected) -> add_gene/add_*_disease and annotate_* over present and absent terms (failing calls carry a different record name; names of any length, some longer than the 255 bytes the binary format stores) -> calculate_information_content -> build_minimal / build_with_defaults, set_hpo_version in a generated typestate; 20-50 % of the calls fail by construction. Deterministic histories in their own processes: more than 65 535 new_term calls; chains of 300 (thorough 3 000) terms with ids ascending / descending with depth and accepted and rejected annotate_* calls at many depths. Stateful oracle: an interpreter of the history over plain sets predicts every Ok/Err; the built ontology is walked through the complete read API under catch_unwind (every handed-out id must resolve); its snapshot must equal the reference model of the successful calls AND the snapshot of the ontology built from the successful calls alone. evaluations = Builder calls. Non-trivial = >=1 failing add_parent with a present parent, >=1 failing annotate_*, and a later successful annotate on the same record; distinct by hash of the history.".into()
+        "Generated call histories in the order the Builder typestates allow: new_term* (none at all in a few histories; duplicates, ids dense / sparse / borders / a run of consecutive ids with one or two holes) -> add_parent* over present and absent ids (present pairs keep the graph acyclic; absent ids are neighbours, holes inside the range of the present ids, far values, the borders 0 / 1 / 9_999_999, values >= 10^7 and near u32::MAX, and aliases of present ids under power-of-two masks / decimal moduli such as id + k*2^24; one history in eight closes with add_parent(x, x) or with the reverse of an accepted link or chain of two links: such a cycle-closing call is accepted on the unchanged tree, where the history then ends, and must be without effect if it is rejected) -> add_gene/add_*_disease and annotate_* over present and absent terms (failing calls carry a different record name; names of any length, some longer than the 255 bytes the binary format stores) -> calculate_information_content -> build_minimal / build_with_defaults, set_hpo_version in a generated typestate; 20-50 % of the calls fail by construction. Deterministic histories in their own processes: more than 65 535 new_term calls; chains of 300 (thorough 3 000) terms with ids ascending / descending with depth and accepted and rejected annotate_* calls at many depths. Stateful oracle: an interpreter of the history over plain sets predicts every Ok/Err; the built ontology is walked through the complete read API under catch_unwind (every handed-out id must resolve); its snapshot must equal the reference model of the successful calls AND the snapshot of the ontology built from the successful calls alone. evaluations = Builder calls. Non-trivial = >=1 failing add_parent with a present parent, >=1 failing annotate_*, and a later successful annotate on the same record; distinct by hash of the history.".into()
     }
     fn assumptions(&self) -> Vec<String> {
         vec![
@@ -511,7 +522,7 @@ impl Property for C15 {
         }
     }
     fn required_labels(&self, _tier: Tier) -> Vec<&'static str> {
-        vec!["nontrivial", "failing-add_parent(present parent, absent child)", "failing-add_parent(absent parent, present child)", "failing-annotate", "duplicate-new_term", "absent-id-0", "build_with_defaults", "record-mentioned-only-by-failing-calls", "absent-id-equal-to-a-present-id-mod-2^24", "bulk>65535-terms", "add_parent(x,x)-accepted:history-ends", "cycle-closing-add_parent-accepted:history-ends", "chain>255-links", "record-name-longer-than-255-bytes", "absent-id-is-the-only-hole-of-a-run-of-present-ids"]
+        vec!["nontrivial", "failing-add_parent(present parent, absent child)", "failing-add_parent(absent parent, present child)", "failing-annotate", "duplicate-new_term", "absent-id-0", "build_with_defaults", "record-mentioned-only-by-failing-calls", "absent-id-equal-to-a-present-id-mod-2^24", "bulk>65535-terms", "add_parent(x,x)-accepted:history-ends", "cycle-closing-add_parent-accepted:history-ends", "chain>255-links", "record-name-longer-than-255-bytes", "absent-id-is-the-only-hole-of-a-run-of-present-ids", "failing-calls-without-any-term"]
     }
     fn run_generated(&self, tier: Tier, seed: u64, n: u64, stats: &mut Stats) -> Option<(Value, Failure)> {
         run_typed(strategy(tier), seed, n, stats, check)
